@@ -344,6 +344,26 @@ func TestC15(t *testing.T) {
 				r.Violation("forwarded-query-differs", fmt.Sprintf("forwarded query %q, client sent %q and nothing is to be removed", gotQuery, query), cs)
 			}
 		} else {
+			// the query is changed by the removal only: the other pairs stay as they were sent, in their order and encoding
+			var keep []string
+			for _, part := range strings.Split(query, "&") {
+				k, _, _ := strings.Cut(part, "=")
+				name, err := url.QueryUnescape(k)
+				if err != nil {
+					name = k
+				}
+				strip := false
+				for _, d := range rw.DelQ {
+					strip = strip || d == name
+				}
+				if !strip {
+					keep = append(keep, part)
+				}
+			}
+			if want := strings.Join(keep, "&"); gotQuery != want {
+				cs.Expected["query"] = want
+				r.Violation("forwarded-query-rewritten-beyond-removal", fmt.Sprintf("forwarded query %q, expected %q (client sent %q, to strip: %v)", gotQuery, want, query, rw.DelQ), cs)
+			}
 			exp, ok := parseQueryOrdered(query)
 			got, ok2 := parseQueryOrdered(gotQuery)
 			if !ok {
